@@ -1,14 +1,14 @@
 package props
 
 import (
-	"strconv"
-	"strings"
-	"reflect"
 	"bytes"
 	"encoding/binary"
 	"encoding/json"
 	"fmt"
 	"math/rand/v2"
+	"reflect"
+	"strconv"
+	"strings"
 	"time"
 
 	"github.com/protolambda/zrnt/eth2/beacon/common"
